@@ -54,12 +54,43 @@ def instrument(ctx, files=None, sub="fsinstrument"):
 
 
 def generate(ctx):
-    """Generated/FinishSites.v: the fs call sites of Finish/writeShard/JsonMarshalRepoMetaTemp/setTombstone in program order."""
+    """Generated/FinishSites.v: the fs call sites of Finish/writeShard/JsonMarshalRepoMetaTemp/setTombstone in program order.
+    Only a run against /repo itself rewrites the shared file (Props/C12.v imports it). A run against another tree
+    (VERIF_REPO = mutant / seed worktree) must not clobber it for concurrent runs: its generated list goes to a private
+    file under coq/Run and is matched against the model's expected_sites by the same vm_compute equation there.
+    Returns a list of 'broken' messages."""
     rc, txt = vf.sh(["go", "run", os.path.join(vf.ROOT, "translator", "finishops", "main.go"), "-repo", vf.REPO],
                     cwd=vf.REPO, env=vf.go_env(), timeout=300)
     if rc != 0 or "Definition finish_sites" not in txt:
         raise RuntimeError("translator/finishops failed: " + txt[-2000:])
-    vf.write_if_changed(os.path.join(vf.COQ, "Generated", "FinishSites.v"), txt[txt.index("(* generated"):])
+    gen = txt[txt.index("(* generated"):]
+    if os.path.realpath(vf.REPO) == os.path.realpath("/repo"):
+        vf.write_if_changed(os.path.join(vf.COQ, "Generated", "FinishSites.v"), gen)
+        return []
+    ok, log = vf.coq_build(["Model/FinishOps.vo"])
+    name = "sites_C12_p%d" % os.getpid()
+    path = os.path.join(vf.COQ, "Run", name + ".v")
+    os.makedirs(os.path.dirname(path), exist_ok=True)
+    with open(path, "w") as f:
+        f.write(gen + "\nFrom ZV Require Import Model.FinishOps.\n"
+                "Goal finish_sites = expected_sites. Proof. vm_compute. reflexivity. Qed.\n")
+    try:
+        rc, out = vf.sh(["coqc", "-Q", ".", "ZV", "-w", "-all", "Run/" + name + ".v"], cwd=vf.COQ, timeout=600)
+    finally:
+        for ext in (".v", ".vo", ".vok", ".vos", ".glob"):
+            try:
+                os.remove(os.path.join(vf.COQ, "Run", name + ext))
+            except OSError:
+                pass
+        try:
+            os.remove(os.path.join(vf.COQ, "Run", "." + name + ".aux"))
+        except OSError:
+            pass
+    if rc != 0:
+        return ["C12_finish_sites_match_model fails on this tree: the call-site order / early returns / buildError assignments "
+                "of Finish, writeShard, JsonMarshalRepoMetaTemp, setTombstone extracted from the source differ from the model's "
+                "expected_sites: " + out[-600:]]
+    return []
 
 
 META_FILES = ["cmd/zoekt-sourcegraph-indexserver/meta.go"]
@@ -70,9 +101,11 @@ def run(ctx):
     the indexserver's mergeMeta (package main); both feed the same model runner."""
     pid = ctx.pid
     spec = SPEC
-    generate(ctx)
+    site_broken = generate(ctx)
     proofs = vf.coq_props(ctx, pid)
-    broken, failures = [], []
+    broken, failures = list(site_broken), []
+    if site_broken:
+        proofs["ok"] = False
     aok, aout = vf.audit()
     if not aok:
         proofs["ok"] = False
